@@ -75,6 +75,9 @@ CORPUS = {
     "rej.org.label": [" ORG S", "S NOP"],
     "stack.other": [" PSHS U,Y,X", " PULU S,X"],
     "rej.stack.other": [" PULU U,Y,X"],
+    "setdp.ff": [" SETDP $FF", " JMP $FFEE", " LDA $FF22"],
+    "page.ff": [" LDA $FF22", " STA $FF20", " JMP $FFEE", " LDX $0E10"],
+    "setdp.0e": [" SETDP $0E00", " LDA $0E10", " SETDP 0", " LDA $0010"],
     "rej.registers2": [" PSHS E,F"],
     "rej.registers3": [" PULU W,V,Q", " NOP"],
     "rej.two.undefined": [" LDX #NOWHERE+ELSEWHERE", " JMP THIRD"],
